@@ -452,8 +452,11 @@ def tail_truncations_without_next_id(F, depth=6):
     return bad, n
 
 
-def loop_early_exits(F, body, inner_block, next_rx=r"Iterator::next$|iter::traits::iterator::Iterator::next$"):
-    """The iterator loop of `body` that contains `inner_block`: header = the innermost `Iterator::next` call block that
+LOOP_NEXT_RX = r"(Iterator::next|VecDeque::pop_front|VecDeque::pop_back|Vec::pop|BTreeMap::pop_first|BTreeMap::pop_last|BinaryHeap::pop|mpsc::\w+::\w*Receiver::try_recv)$"
+
+
+def loop_early_exits(F, body, inner_block, next_rx=LOOP_NEXT_RX):
+    """The iterator loop (`for x in it`, `while let Some(x) = queue.pop_front()`) of `body` that contains `inner_block`: header = the innermost `Iterator::next` / pop call block that
     dominates inner_block and is reachable from it again.  Returns (header, [(src, dst)]) - the edges that leave the loop
     other than the `None` edge of the test of next()'s result (iterator exhausted): `break`, `return`, `?` inside the
     loop body.  (None, []) when inner_block is in no such loop."""
@@ -505,3 +508,10 @@ def loop_early_exits(F, body, inner_block, next_rx=r"Iterator::next$|iter::trait
                 continue      # iterator exhausted: the regular exit
             exits.append((x, y))
     return h, exits
+
+
+def is_test_id(x):
+    """is a body id / function path test-only code (a test module, a test fn, a mock)?  Substring `test` alone is not enough:
+    `get_latest_snapshot_metadata` contains it."""
+    x = x or ""
+    return re.search(r"(::tests?::|_tests?::|::tests?_\w*::|::test_\w+|_test$|_tests$|::mock\w*::|::Mock\w+|test_utils)", x) is not None
